@@ -593,8 +593,119 @@ pub fn gen_fci(r: &mut Rng, cfg: &GenCfg) -> Fci {
     }
 }
 
+/// Related neighbours: real senders emit lists whose successive elements are related
+/// (sorted SSRCs, a macroblock run that continues the previous one, a repeated element),
+/// and code that merges, sorts or de-duplicates list entries only misbehaves on those.
+/// With probability 1/2 per packet, each list element after the first is, with probability
+/// 1/3, rewritten as a relative of its predecessor.
+fn relate_u32(r: &mut Rng, prev: u32) -> u32 {
+    match r.below(5) {
+        0 => prev,
+        1 => prev.wrapping_add(1),
+        2 => prev.wrapping_sub(1),
+        3 => prev.wrapping_add(r.range(2, 300) as u32),
+        _ => prev.wrapping_sub(r.range(2, 300) as u32),
+    }
+}
+
+fn relate_fci(r: &mut Rng, f: &mut Fci) {
+    match f {
+        Fci::Fir { entries } => {
+            for i in 1..entries.len() {
+                if r.chance(1, 3) {
+                    let (ps, pq) = entries[i - 1];
+                    entries[i] = match r.below(4) {
+                        0 => (ps, pq.wrapping_sub(1)),
+                        1 => (ps, pq.wrapping_add(*r.pick(&[0u8, 1, 127, 128, 129]))),
+                        _ => (relate_u32(r, ps), entries[i].1),
+                    };
+                }
+            }
+        }
+        Fci::Sli { entries } => {
+            for i in 1..entries.len() {
+                if r.chance(1, 3) {
+                    let (pf, pn, pp) = entries[i - 1];
+                    let (_, n, p) = entries[i];
+                    entries[i] = match r.below(6) {
+                        0 => (pf, pn, pp),
+                        1 | 2 => (pf.wrapping_add(pn) & 0x1fff, n, pp),
+                        3 => (pf.wrapping_add(pn).wrapping_add(1) & 0x1fff, n, pp),
+                        4 => (pf, n, pp),
+                        _ => (pf.wrapping_add(pn) & 0x1fff, n, p),
+                    };
+                }
+            }
+        }
+        Fci::Nack { seqs } => {
+            // re-adding an earlier element, in particular the largest so far
+            for i in 1..seqs.len() {
+                if r.chance(1, 6) {
+                    seqs[i] = match r.below(3) {
+                        0 => seqs[i - 1],
+                        1 => *seqs[..i].iter().max().unwrap(),
+                        _ => seqs[r.below(i)],
+                    };
+                }
+            }
+        }
+        _ => {}
+    }
+}
+
+pub fn relate_neighbours(r: &mut Rng, s: &mut Spec) {
+    if !r.chance(1, 2) {
+        return;
+    }
+    match s {
+        Spec::Sr { blocks, .. } | Spec::Rr { blocks, .. } => {
+            for i in 1..blocks.len() {
+                if r.chance(1, 3) {
+                    blocks[i].ssrc = relate_u32(r, blocks[i - 1].ssrc);
+                }
+            }
+        }
+        Spec::Bye { sources, .. } => {
+            for i in 1..sources.len() {
+                if r.chance(1, 3) {
+                    sources[i] = relate_u32(r, sources[i - 1]);
+                }
+            }
+        }
+        Spec::Sdes { chunks, .. } => {
+            for i in 1..chunks.len() {
+                if r.chance(1, 3) {
+                    chunks[i].ssrc = relate_u32(r, chunks[i - 1].ssrc);
+                }
+                if r.chance(1, 6) {
+                    chunks[i].items = chunks[i - 1].items.clone();
+                }
+            }
+            for c in chunks.iter_mut() {
+                for i in 1..c.items.len() {
+                    if r.chance(1, 3) {
+                        if c.items[i].ty != 8 && c.items[i - 1].ty != 8 {
+                            c.items[i].ty = c.items[i - 1].ty;
+                        } else if r.chance(1, 2) {
+                            c.items[i] = c.items[i - 1].clone();
+                        }
+                    }
+                }
+            }
+        }
+        Spec::Fb { fci, .. } => relate_fci(r, fci),
+        _ => {}
+    }
+}
+
 /// One of the eight built-in packet kinds (no wrappers).
 pub fn gen_packet(r: &mut Rng, cfg: &GenCfg) -> Spec {
+    let mut s = gen_packet_raw(r, cfg);
+    relate_neighbours(r, &mut s);
+    s
+}
+
+fn gen_packet_raw(r: &mut Rng, cfg: &GenCfg) -> Spec {
     let padding = gen_padding(r, cfg);
     match r.below(if cfg.third { 11 } else { 10 }) {
         0 => Spec::Sr {
@@ -661,7 +772,17 @@ pub fn gen_packet(r: &mut Rng, cfg: &GenCfg) -> Spec {
 pub fn gen_spec(r: &mut Rng, cfg: &GenCfg, depth: usize) -> Spec {
     let roll = r.below(100);
     if cfg.parts && depth == 0 && roll < 8 {
-        return if roll < 4 { Spec::ChunkOnly(gen_chunk(r, cfg)) } else { Spec::ItemOnly(gen_item(r, cfg)) };
+        return if roll < 4 {
+            let mut c = gen_chunk(r, cfg);
+            for i in 1..c.items.len() {
+                if r.chance(1, 4) {
+                    c.items[i] = c.items[i - 1].clone();
+                }
+            }
+            Spec::ChunkOnly(c)
+        } else {
+            Spec::ItemOnly(gen_item(r, cfg))
+        };
     }
     if cfg.wrappers && depth < 2 && roll >= 8 && roll < 26 {
         let n = match r.below(8) {
